@@ -1,2 +1,202 @@
+"""Languages of is_ipv4 and is_ipv6 in the bracket context (range ends at ']'): extracted automata sandwiched between
+the lower bound (what the statement says MUST be accepted: RFC 5321 section 4.1.3 grammar, quads of 1-3 digit
+octets with non-zero first octet) and the upper bound (what MAY be accepted: RFC 4291 forms, octets 0-255)."""
+import unitdb, scanex, forkmap
+from scanex import END, Ptr, Byte, BSet, Unsupported, members_of, View
+from spec import iplit
+from report import AnalysisBroken
+from astutil import where, callee_name, strip
+
+BRACKET = 0x5d
+
+
+def string_arg(n):
+    n = strip(n)
+    while n.get('kind') in ('ImplicitCastExpr', 'CStyleCastExpr', 'ParenExpr'): n = n['inner'][0]
+    if n.get('kind') != 'StringLiteral': return None
+    import tables
+    return tables.c_unescape(n['value'])
+
+
+class EnterNested(Exception):
+    def __init__(s, off): s.off = off
+
+
+class Span:
+    """lazy result of strspn on the cursor: only as many symbols are examined as a comparison needs"""
+    def __init__(self, m, off, members): self.m = m; self.off = off; self.members = members; self.known = 0; self.closed = False
+    def at_least(self, n):
+        while self.known < n and not self.closed:
+            e = self.m.view.sym(self.off + self.known)
+            if e == END: self.closed = True; break
+            b = self.m.symval(e, self.m.view.index(self.off + self.known))
+            if not self.m.decide(b, lambda x: x in self.members): self.closed = True; break
+            self.known += 1
+        return self.known >= n
+    def exact(self):
+        n = 0
+        while self.at_least(n + 1):
+            n += 1
+            if n > 64: raise Unsupported('unbounded strspn')
+        return n
+    def cmp(self, op, c):
+        if op == '>': return int(self.at_least(c + 1))
+        if op == '>=': return int(self.at_least(c))
+        if op == '<': return int(not self.at_least(c))
+        if op == '<=': return int(not self.at_least(c + 1))
+        if op == '==': return int(self.at_least(c) and not self.at_least(c + 1))
+        if op == '!=': return int(not (self.at_least(c) and not self.at_least(c + 1)))
+        raise Unsupported('span ' + op)
+
+
+class IPMachine(scanex.ScannerMachine):
+    """is_ipv4 / is_ipv6 with models of the two library calls they make:
+       strspn(p, "set") on a cursor-relative pointer: counts window symbols that are members of the set (lazily
+           refined), stopping at the end of the range, whose terminator byte must not be in the set;
+       start[strspn(start, "0.")] (is_ipv4's 0.0.0.0 exemption): non-zero in the bracket context, because the
+           terminator ']' is outside "0." - the statement allows either answer for quads with a zero first octet;
+       is_ipv4(cursor - k, end) called from is_ipv6: the is_ipv4 scanner is run, from its own source, as a nested
+           scan over the same window starting k symbols behind the cursor."""
+    def __init__(self, tu, fname, term=BRACKET, name=None):
+        counters = {'byte_count': None} if fname == 'is_ipv4' else {}
+        super().__init__(tu, fname, term, counters=counters, name=name)
+        self.singletons = set(iplit.DIGITS)
+
+    def call(self, n):
+        name = callee_name(n)
+        args = n['inner'][1:]
+        if name == 'strspn':
+            p = self.ev(args[0]); lit = string_arg(args[1])
+            if lit is None: raise Unsupported('strspn with a non-literal set')
+            members = frozenset(ord(c) for c in lit)
+            if isinstance(p, Ptr) and p.base == 'start' and p.off == 0 and not self.at_start_known_cursor():
+                return ('span-from-start', members)
+            if not (isinstance(p, Ptr) and p.base == 'cur'): raise Unsupported('strspn on ' + repr(p))
+            if self.term in members: raise Unsupported('strspn set contains the terminator byte')
+            sp = Span(self, p.off, members); self.last_span = sp
+            return sp
+        if name == 'is_ipv4' and self.fname != 'is_ipv4':
+            raise Unsupported('is_ipv4 called from is_ipv6 outside a return statement')
+        raise Unsupported('call of ' + str(name))
+
+    def at_start_known_cursor(self):
+        return False
+
+    # ---- tail call  `return is_ipv4(cursor - k, end)`: the machine continues as the is_ipv4 scanner
+    def ex(self, n):
+        if n['kind'] == 'ReturnStmt' and self.fname != 'is_ipv4':
+            e = strip(n['inner'][0])
+            if e.get('kind') == 'CallExpr' and callee_name(e) == 'is_ipv4':
+                p = self.ev(e['inner'][1]); q = self.ev(e['inner'][2])
+                if not (isinstance(p, Ptr) and p.base == 'cur'): raise Unsupported('nested is_ipv4 on ' + repr(p))
+                if not (isinstance(q, Ptr) and q.base == 'end' and q.off == 0): raise Unsupported('nested is_ipv4 with a different end')
+                x = EnterNested(p.off); x.node = n
+                raise x
+        return super().ex(n)
+
+    def key(self):
+        for k, v in list(self.env.items()):
+            if isinstance(v, Span): self.env[k] = v.exact()
+        return super().key()
+
+    def step(self, key, view):
+        """`return is_ipv4(cursor - k, end)` ends the structural scan with the verdict ('tail', k): the rest of the
+        input, starting k symbols behind the cursor, is judged by is_ipv4 (whose language is decided separately)"""
+        try:
+            return super().step(key, view)
+        except EnterNested as e:
+            if e.off > 0: raise Unsupported('is_ipv4 called on a range starting ahead of the cursor')
+            return ('ret', ('tail', -e.off), e.node)
+
+    def binop(self, op, a, b):
+        if isinstance(a, Span) or isinstance(b, Span):
+            inv = {'==': '==', '!=': '!=', '<': '>', '<=': '>=', '>': '<', '>=': '<='}
+            if isinstance(a, Span) and isinstance(b, int) and not isinstance(b, (Byte,)) and op in inv: return a.cmp(op, b)
+            if isinstance(b, Span) and isinstance(a, int) and not isinstance(a, (Byte,)) and op in inv: return b.cmp(inv[op], a)
+            a = a.exact() if isinstance(a, Span) else a
+            b = b.exact() if isinstance(b, Span) else b
+        return super().binop(op, a, b)
+
+    def truth(self, v):
+        if isinstance(v, Span): return v.at_least(1)
+        return super().truth(v)
+
+    def subscript_hook(self, n, base, idx):
+        if isinstance(base, Ptr) and base.base == 'start' and base.off == 0 and isinstance(idx, tuple) and idx and idx[0] == 'span-from-start':
+            if self.term in idx[1] or self.term == 0: raise Unsupported('start[strspn(start, set)] outside the bracket context')
+            return 1          # some byte outside the set precedes the NUL: at the latest the terminator ']'
+        return super().subscript_hook(n, base, idx)
+
+
+def ip_alphabet(tu, fnames):
+    consts, masks = scanex.function_constants([tu.fn(f) for f in fnames])
+    # characters of string literals are set members, not individual comparisons
+    consts = {c for c in consts if not (0x30 <= c <= 0x39 or chr(c) in 'abcdefABCDEF') or c == 0x30}
+    reps, class_of, classes = scanex.byte_classes(consts, masks, iplit.PREDICATE_SETS)
+    return [r for r in reps if r != BRACKET and r != 0], classes
+
+
+def sandwich_task(tu, fname, lower, symbols, lb):
+    def task():
+        found = {}
+        m = IPMachine(tu, fname)
+        d = scanex.DFAMachine('spec', *(iplit.v4_dfa(lower) if fname == 'is_ipv4' else iplit.v6_struct(lower)))
+        def leaf(results, witness):
+            (rc, node), (src, _) = results
+            w = [s for s in witness if s != END]
+            if rc == ('tail', 0): rc = 0        # a tail that starts with '.' is rejected by is_ipv4 (O5.5b: a quad starts with a digit)
+            cls = None
+            if lower:
+                if src == 0 and rc != 1: cls = 'rejects-required'
+                elif isinstance(src, tuple) and src[0] == 'tail' and rc != src: cls = 'quad-tail-not-delegated'
+            else:
+                if rc == 1 and src != 0: cls = 'accepts-forbidden'
+                elif isinstance(rc, tuple) and rc != src: cls = 'quad-tail-misplaced'
+            if cls is None: return
+            if cls not in found or len(w) < len(found[cls][0]): found[cls] = (w, where(node) if node else '?', str(rc), str(src))
+        ex = scanex.Explorer([m, d], symbols, BRACKET, lookbehind=lb)
+        ex.run(leaf)
+        return ex.configs, ex.transitions, found
+    return task
+
+
 def run(ck):
-    pass
+    us = [u for u in unitdb.units() if u.rel == 'src/is_ipv4_ipv6.c']
+    if not us: raise AnalysisBroken('src/is_ipv4_ipv6.c is not built')
+    tu = unitdb.load_asts(us)['src/is_ipv4_ipv6.c']
+    ck.analysed(units=['src/is_ipv4_ipv6.c'], functions=['src/is_ipv4_ipv6.c:is_ipv4', 'src/is_ipv4_ipv6.c:is_ipv6', 'src/is_ipv4_ipv6.c:is_ipaddr'])
+    symbols, classes = ip_alphabet(tu, ['is_ipv4', 'is_ipv6'])
+    jobs = [sandwich_task(tu, 'is_ipv4', True, symbols, 1), sandwich_task(tu, 'is_ipv4', False, symbols, 1),
+            sandwich_task(tu, 'is_ipv6', True, symbols, 1), sandwich_task(tu, 'is_ipv6', False, symbols, 1)]
+    res = forkmap.forkmap(jobs)
+    rules = [('O5.5a', 'is_ipv4', 'every dotted quad of 1-3 digit octets <= 255 with non-zero first octet is accepted (bracket context, all lengths)'),
+             ('O5.5b', 'is_ipv4', 'is_ipv4 accepts only four decimal octets 0-255 separated by single dots (bracket context, all lengths)'),
+             ('O5.7a', 'is_ipv6', 'every RFC 5321 IPv6-full / IPv6-comp address is accepted, and for IPv6v4-full / IPv6v4-comp the dotted-quad tail is handed, from the start of its first octet, to is_ipv4 (O5.5a then accepts it)'),
+             ('O5.7b', 'is_ipv6', 'is_ipv6 accepts only RFC 4291 text forms: 8 groups, or fewer with one "::"; groups of 1-4 hex digits; a dotted-quad tail only after 6 groups (at most 5 with "::") and only through is_ipv4 (O5.5b bounds it)')]
+    for (rid, fname, text), (cfg, tr, found) in zip(rules, res):
+        r = ck.rule(rid, text, 1)
+        ck.mc(cfg, tr)
+        site = f'src/is_ipv4_ipv6.c:{fname}'
+        if not found: r.instance(site, ok=True, detail={'configurations': cfg, 'transitions': tr})
+        for cls, (w, at, rc, src) in sorted(found.items()):
+            what = {'rejects-required': 'rejects an address the statement requires to be accepted',
+                    'accepts-forbidden': 'accepts an address the statement does not allow',
+                    'quad-tail-not-delegated': 'does not hand the dotted-quad tail (from the start of its first octet) to the IPv4 rules where the grammar has one',
+                    'quad-tail-misplaced': 'hands a dotted-quad tail to the IPv4 rules where RFC 4291 has none, or from the wrong position'}[cls]
+            r.instance(site, ok=False, wclass=cls, witness=scanex.show(w),
+                       what=f'{fname} on {scanex.show(w)!r}: {what} (code verdict {rc} at {at}; statement verdict {src})')
+        ck.sample({'rule': rid, 'symbols': len(symbols), 'configurations': cfg, 'transitions': tr})
+    # is_ipaddr dispatch
+    import cfgpaths
+    r = ck.rule('R5.8', 'is_ipaddr dispatches on the presence of ":" to is_ipv6, else is_ipv4, with its own (start, end) and returns the result unchanged', 1)
+    eng, paths = cfgpaths.summarise(tu, 'is_ipaddr')
+    why = []
+    for p in paths:
+        sc = [c for c in p.calls() if c[1] in ('strchr', 'memchr') and c[2][:2] == ('start', "':'")]
+        if len(sc) != 1: why.append('no colon search on start'); continue
+        v = [c for c in p.calls() if c[1] in ('is_ipv4', 'is_ipv6')]
+        want = 'is_ipv6' if p.passed(sc[0][3], True) else 'is_ipv4'
+        if len(v) != 1 or v[0][1] != want or v[0][2] != ('start', 'end') or p.ret()[1] != v[0][3]: why.append(f'colon {"found" if want == "is_ipv6" else "absent"}: calls {[c[1:3] for c in v]}, returns {p.ret()[1]}')
+    r.instance('src/is_ipv4_ipv6.c:is_ipaddr', ok=not why and len(paths) == 2, wclass='dispatch', what='; '.join(why))
+    ck.assume('literals are validated in the bracket context (the range ends at "]", which every strspn set excludes); direct API calls on other ranges are not covered')
+    ck.assume('quads with a zero first octet may be accepted or rejected (the statement bounds them from neither side)')
